@@ -345,7 +345,8 @@ PROPS = {
         "level_text": "2-3 threads issue lookup (through either hard-link name, each followed at once by GETATTR on the returned number), forget of the references "
                       "the client already held, and readdirplus on one file of a real PassthroughFs. Yield points sit before the first probe, after a probe "
                       "hit, between the refcount load and the compare-exchange, before taking the map write lock, and before forget takes it - all outside "
-                      "lock-held regions. For 2-thread programs every interleaving of these points is executed (stateless DFS); 3-thread programs get random "
+                      "lock-held regions; a seventh point sits inside forget_one between its refcount load and its compare-exchange (write lock held) and is used "
+                      "for delay injection by the stress mode only. For 2-thread programs every interleaving of these points is executed (stateless DFS); 3-thread programs get random "
                       "walks; a stress mode runs 4-12 free threads with random yields/spins/sleeps at the same points (and under ThreadSanitizer in the "
                       "thorough tier). Oracle: all lookups return one number, GETATTR after a lookup succeeds, final count = initial + delivered - forgotten.",
         "level_note": "Interleavings are controlled at hook granularity (the steps between lock acquisitions and atomics); instruction-level and weak-memory "
